@@ -3,6 +3,8 @@ import BbRe.Lemmas.FairWalk
 import BbRe.Lemmas.FairHandoff
 import BbRe.Lemmas.FairExamples
 import BbRe.Lemmas.FairReal
+import BbRe.Lemmas.FairDynCache
+import BbRe.Lemmas.FairDynParked
 /-!
 # C04 — the scheduler hands work out in the documented fair order
 
@@ -339,5 +341,141 @@ example : handoffTargets (.mk 0 [] [] 0 0 0 [] [1, 4] 0
       [.mk 2 [] [] 0 1 0 [11] [] 5 [], .mk 3 [] [] 0 0 0 [12] [] 4 [], .mk 5 [] [] 0 0 0 [] [] 0 []],
      .mk 4 [] [] 0 0 0 [13] [] 3 []]) [[1, 5]] = [12] := by decide
 example : dist [1, 5] [1, 3] = 1 ∧ dist [1, 5] [4] = 2 := by decide
+
+/-! ## The heaps stay ordered (`Model/FairDyn.lean`)
+
+The functions of the scheduler that change the heaps — `operation.enqueue`,
+`operation.removeQueuedFromInvocation`, `invocation.increment/decrementExecutingWorkersCount`,
+parking in `worker.getNextTask` and `worker.dequeue` — transcribed on the tree with Go's
+`container/heap` at exactly the call sites of the code (`heap.Push`/`heap.Remove` on
+`queuedOperations`; `heapPushOrFix`, `heapRemoveOrFix`, `heapMaybeFix` on the parent's
+`queuedChildren` and `idleSynchronizingWorkersChildren` after the child's key changed, level by
+level up to the root). -/
+
+/-- `heaps_stay_ordered`: every update maps a tree of any shape whose `queuedOperations` and
+`queuedChildren` heaps satisfy the heap property (and list exactly the children with queued
+work) to such a tree: the hypothesis of `pick_refines_spec` is an invariant. -/
+theorem heaps_stay_ordered (u : Update) (t : Inv) (h : HeapTree t) (he : u.enabled t) : HeapTree (u.apply t) := by
+  cases u with
+  | enqueue path o => exact (enqueue_spec o path t h he).1
+  | removeQueued path idx =>
+    obtain ⟨n, hn, hidx⟩ := he
+    exact (removeQueued_spec idx path t n h hn hidx).1
+  | increment path now fresh => exact (rekey_spec _ (keyOnly_incr now fresh) path t h).1
+  | decrement path now last => exact (rekey_spec _ (keyOnly_decr now last) path t h).1
+  | park path w => exact (frame_spec _ _ (frame_park w) path t h).1
+  | unpark path idx => exact (frame_spec _ _ (frame_unpark idx) path t h).1
+
+/-- The same for *any* change of the keys `executingWorkers`, `lastOperationStarted`,
+`lastOperationCompletion` along a path that is followed, level by level, by the two
+`heapMaybeFix` calls of the code. -/
+theorem heaps_stay_ordered_rekey (g : Inv → Inv) (hg : KeyOnly g) (path : List Nat) (t : Inv) (h : HeapTree t) :
+    HeapTree (rekey g path t) := (rekey_spec g hg path t h).1
+
+/-- The third heap: `idleSynchronizingWorkersChildrenHeap.Less` is not a strict weak order
+(`idleLess_not_strictWeak`), so no heap property is claimed for it.  What every update preserves,
+whatever the comparison does: `idleSynchronizingWorkersChildren` is duplicate-free and lists
+exactly the children with parked workers at or below them, at every invocation (`ParkedTree`). -/
+theorem parked_children_stay_listed (u : Update) (t : Inv) (h : ParkedTree t) (he : u.enabled t) :
+    ParkedTree (u.apply t) := by
+  cases u with
+  | enqueue path o => exact parked_enqueue o path t h
+  | removeQueued path idx => exact parked_removeQueued idx path t h
+  | increment path now fresh => exact (rekey_parked _ (keyOnly_incr now fresh) path t h).1
+  | decrement path now last => exact (rekey_parked _ (keyOnly_decr now last) path t h).1
+  | park path w => exact (park_spec w path t h he).1
+  | unpark path idx =>
+    obtain ⟨n, hn, hidx⟩ := he
+    exact (unpark_spec idx path t n h hn (by intro h0; rw [h0] at hidx; simp at hidx)).1
+
+/-- … which is what the hand-off theorems assume. -/
+theorem parkedTree_handoff_hypotheses (t : Inv) (h : ParkedTree t) : ParkedListed t ∧ ParkedSound t :=
+  ⟨parkedListed_of_tree t h, parkedSound_of_tree t h⟩
+
+/-- `cached_priority`, the invariant: in every state, the `firstQueuedOperationPriority` of
+every invocation below the root is the priority of `queuedOperations[0]` when it has directly
+queued operations, and otherwise the cached priority of one of its queued children (so it is
+exact when there is a single queued child).  Executing-count changes reorder `queuedChildren`
+without refreshing the cache; that is all the slack there is. -/
+theorem cached_priority (u : Update) (t : Inv) (h : HeapTree t) (hc : CacheTree t) (he : u.enabled t) :
+    CacheTree (u.apply t) := by
+  cases u with
+  | enqueue path o => exact cache_enqueue o path t h he hc
+  | removeQueued path idx =>
+    obtain ⟨n, hn, hidx⟩ := he
+    exact cache_removeQueued idx path t n h hn hidx hc
+  | increment path now fresh => exact cache_rekey _ (keyOnly_incr now fresh) path t h hc
+  | decrement path now last => exact cache_rekey _ (keyOnly_decr now last) path t h hc
+  | park path w => exact cache_park w path t h hc
+  | unpark path idx => exact cache_unpark idx path t h hc
+
+/-- `cached_priority`, the two exact cases spelled out. -/
+theorem cached_priority_exact_cases (c : Inv) (h : cacheNode c) :
+    (∀ o rest, c.ops = o :: rest → c.prio = o.prio) ∧
+    (c.ops = [] → ∀ k, c.queued = [k] → ∃ g ∈ c.kids, g.key = k ∧ g.prio = c.prio) := by
+  unfold cacheNode at h
+  constructor
+  · intro o rest ho; rw [ho] at h; exact h
+  · intro ho k hk
+    rw [ho, hk] at h
+    rcases h with h | ⟨g, hg, hgk, hgp⟩
+    · cases h
+    · exact ⟨g, hg, by simpa using hgk, hgp⟩
+
+/-- `cached_priority`, at the refresh: `enqueue` and `removeQueuedFromInvocation` refresh the
+cache of every invocation they pass, bottom-up; when all caches were exact before
+(`c.prio = firstPrio c` for every invocation below the root: exactly what
+`updateFirstOperationPriority` would store), they all are afterwards … -/
+theorem cached_priority_refreshed (u : Update) (t : Inv) (h : ExactTree t)
+    (hu : (∃ path o, u = .enqueue path o) ∨ (∃ path idx, u = .removeQueued path idx)) : ExactTree (u.apply t) := by
+  rcases hu with ⟨path, o, rfl⟩ | ⟨path, idx, rfl⟩
+  · exact exact_enqueue o path t h
+  · exact exact_removeQueued idx path t h
+
+/-- … and with exact caches the cached priority of an invocation *is* the priority of the
+operation the walk (of a worker without stickiness) selects below it. -/
+theorem cached_priority_predicts_walk (win : Nat → Bool) (nlim fuel : Nat) (c : Inv) (lvl : Nat) (o : Op) (r : Nat)
+    (h : ExactTree c) (hp : pickAux win nlim fuel c [] lvl = some (o, r)) : o.prio = firstPrio c :=
+  exact_walk win nlim fuel c lvl o r h hp
+
+/-- The invariants along any sequence of enabled updates. -/
+theorem heaps_stay_ordered_all (us : List Update) : ∀ (t : Inv), HeapTree t → enabledAll us t →
+    HeapTree (applyAll us t) := by
+  induction us with
+  | nil => intro t h _; exact h
+  | cons u us ih => intro t h he; exact ih (u.apply t) (heaps_stay_ordered u t h he.1) he.2
+
+theorem parked_children_stay_listed_all (us : List Update) : ∀ (t : Inv), ParkedTree t → enabledAll us t →
+    ParkedTree (applyAll us t) := by
+  induction us with
+  | nil => intro t h _; exact h
+  | cons u us ih => intro t h he; exact ih (u.apply t) (parked_children_stay_listed u t h he.1) he.2
+
+/-- Closing the loop: in every state reached from a well-formed tree by any sequence of enabled
+updates, the operation `assignNextQueuedTask` hands out is one the documented policy admits. -/
+theorem pick_refines_spec_reachable (us : List Update) (t : Inv) (w : WView) (h : HeapTree t)
+    (he : enabledAll us t) (r : Op × Nat) (hp : pickFromQueue (applyAll us t) w = some r) :
+    r ∈ specPick (applyAll us t) w :=
+  pick_refines_spec _ w (heaps_stay_ordered_all us t h he) r hp
+
+/-- … and a task scheduled there while a worker is parked goes to a most closely related parked
+worker. -/
+theorem handoff_reachable (us : List Update) (t : Inv) (h : ParkedTree t) (he : enabledAll us t)
+    (invs : List (List Nat)) (hv : ∀ p ∈ invs, ∃ n, nodeAt (applyAll us t) p = some n) (w : Nat)
+    (hw : w ∈ handoffTargets (applyAll us t) invs) :
+    ∃ p q, p ∈ invs ∧ Parked (applyAll us t) q w ∧
+      ∀ p' q' w', p' ∈ invs → Parked (applyAll us t) q' w' → dist p q ≤ dist p' q' :=
+  direct_handoff_prefers_related _ invs (parkedListed_of_tree _ (parked_children_stay_listed_all us t h he)) hv w hw
+
+-- non-vacuity: the updates on a concrete tree (two queued children under `1`; enqueue a high
+-- priority operation into `[1,3]`, start it, park a worker)
+example : (Update.enqueue [1, 3] ⟨9, -5, 10, 7⟩).enabled exTree := by
+  show (nodeAt exTree [1, 3]).isSome = true; decide
+example : pickFromQueue ((Update.enqueue [1, 3] ⟨9, -5, 10, 7⟩).apply exTree) ⟨[], [], [], 500⟩ =
+    some (⟨9, -5, 10, 7⟩, 0) := by decide
+example : ((Update.enqueue [1, 3] ⟨9, -5, 10, 7⟩).apply exTree).wf = true := by decide
+example : (applyAll [.enqueue [1, 3] ⟨9, -5, 10, 7⟩, .removeQueued [1, 3] 0,
+      .increment [1, 3] 600 (fun _ => true), .park [1, 2] 41] exTree).wf = true := by decide
+example : (nodeAt ((Update.enqueue [1, 3] ⟨9, -5, 10, 7⟩).apply exTree) [1]).map Inv.prio = some (-5) := by decide
 
 end BbRe.Properties.C04
